@@ -53,6 +53,7 @@ type config struct {
 	basePath string          // ends in '/'
 	usesFor  map[string]bool // actions that get middleware from Uses() (may name unimplemented actions)
 	groupMw  int
+	spare    int // spare capacity of the middleware slice handed to Resource
 	outer    string // non-empty: Resource is called inside Group(outer, ...)
 	outerMw  int    // middleware given to the outer group
 	outerUse int    // Use calls inside the outer group before Resource (the group chain is then built by append)
@@ -103,7 +104,7 @@ func register(c config) *rux.Router {
 		opts = append(opts, rux.StrictLastSlash)
 	}
 	r := rux.New(opts...)
-	var gm []rux.HandlerFunc
+	gm := make([]rux.HandlerFunc, 0, c.groupMw+c.spare) // the caller's slice may have spare capacity
 	for i := 0; i < c.groupMw; i++ {
 		gm = append(gm, mw(fmt.Sprintf("group%d", i)))
 	}
@@ -269,7 +270,8 @@ func (mapCtl) Show(ctx *rux.Context) { ctx.WriteString("show") }
 func prop(t *rapid.T) {
 	ev.Case()
 	c := config{bits: rapid.IntRange(0, 127).Draw(t, "actions"), uses: rapid.Bool().Draw(t, "hasUses"),
-		basePath: rapid.SampledFrom([]string{"/", "/api/", "/api/v1/", "api/"}).Draw(t, "base"), groupMw: rapid.IntRange(0, 2).Draw(t, "groupMw"), usesFor: map[string]bool{}}
+		basePath: rapid.SampledFrom([]string{"/", "/api/", "/api/v1/", "api/", "/Admin/V1/", "/API/"}).Draw(t, "base"), groupMw: rapid.IntRange(0, 3).Draw(t, "groupMw"),
+		spare: rapid.IntRange(0, 3).Draw(t, "spareCap"), usesFor: map[string]bool{}}
 	if c.uses {
 		for _, a := range rapid.SliceOfNDistinct(rapid.SampledFrom(append(append([]string{}, actions...), "Nope", "index")), 0, 4, rapid.ID[string]).Draw(t, "usesFor") {
 			c.usesFor[a] = true
